@@ -28,6 +28,7 @@ Definition TSK_MAX_SIZE : Z := 18446744073709551615.       (* UINT64_MAX *)
 Definition SIZE_MOD : Z := 18446744073709551616.
 Definition U32_MOD : Z := 4294967296.
 Definition TSK_NULL : Z := -1.
+Definition TSK_UNKNOWN_TIME_BITS : Z := c13_tsk_unknown_time_bits.  (* TSK_UNKNOWN_TIME_HEX *)
 Definition TSK_ERR_BAD_PARAM_VALUE : Z := c13_tsk_err_bad_param_value.
 Definition TSK_ERR_BAD_OFFSET : Z := c13_tsk_err_bad_offset.
 Definition TSK_ERR_KEEP_ROWS_MAP_TO_DELETED : Z := c13_tsk_err_keep_rows_map_to_deleted.
@@ -115,8 +116,11 @@ Record tdesc := mkDesc {
   td_md : option nat;                  (* ragged column that keep_rows skips when empty *)
   td_assert : bool;                    (* add_row: tsk_bug_assert(offset[num_rows] == length) *)
   td_oob : Z;                          (* TSK_ERR_<TABLE>_OUT_OF_BOUNDS *)
-  td_mdlen_bug : bool                  (* parse_<table>_table_dict reads metadata_offset with
+  td_mdlen_bug : bool;                 (* parse_<table>_table_dict reads metadata_offset with
                                           check_num_rows = false (sites, mutations) *)
+  td_fdefault : list (option Z)        (* per fixed column: None = required; Some v = may be
+                                          omitted in set_columns / append_columns, the new
+                                          rows then get v (TSK_NULL, TSK_UNKNOWN_TIME) *)
 }.
 
 (* column order = harness/props/c13.py SCHEMAS.  The order in which append_columns treats
@@ -124,21 +128,29 @@ Record tdesc := mkDesc {
    metadata_offset read are regenerated from tables.c / tskit_lwt_interface.h / core.h on
    every run (translator/facts_c13.py), so a change there changes the model. *)
 Definition d_individuals := mkDesc [KU32] 3 c13_order_individual (Some (false, 1%nat)) (Some 2%nat)
-  c13_addrow_assert_individual c13_tsk_err_individual_out_of_bounds (negb c13_md_offset_length_checked_individual).
+  c13_addrow_assert_individual c13_tsk_err_individual_out_of_bounds (negb c13_md_offset_length_checked_individual)
+  [None].
 Definition d_nodes := mkDesc [KF64; KU32; KId; KId] 1 c13_order_node None (Some 0%nat)
-  c13_addrow_assert_node c13_tsk_err_node_out_of_bounds (negb c13_md_offset_length_checked_node).
+  c13_addrow_assert_node c13_tsk_err_node_out_of_bounds (negb c13_md_offset_length_checked_node)
+  [None; None; Some TSK_NULL; Some TSK_NULL].
 Definition d_edges := mkDesc [KF64; KF64; KId; KId] 1 c13_order_edge None (Some 0%nat)
-  c13_addrow_assert_edge c13_tsk_err_edge_out_of_bounds (negb c13_md_offset_length_checked_edge).
+  c13_addrow_assert_edge c13_tsk_err_edge_out_of_bounds (negb c13_md_offset_length_checked_edge)
+  [None; None; None; None].
 Definition d_migrations := mkDesc [KF64; KF64; KId; KId; KId; KF64] 1 c13_order_migration None (Some 0%nat)
-  c13_addrow_assert_migration c13_tsk_err_migration_out_of_bounds (negb c13_md_offset_length_checked_migration).
+  c13_addrow_assert_migration c13_tsk_err_migration_out_of_bounds (negb c13_md_offset_length_checked_migration)
+  [None; None; None; None; None; None].
 Definition d_sites := mkDesc [KF64] 2 c13_order_site None (Some 1%nat)
-  c13_addrow_assert_site c13_tsk_err_site_out_of_bounds (negb c13_md_offset_length_checked_site).
+  c13_addrow_assert_site c13_tsk_err_site_out_of_bounds (negb c13_md_offset_length_checked_site)
+  [None].
 Definition d_mutations := mkDesc [KId; KId; KF64; KId] 2 c13_order_mutation (Some (true, 3%nat)) (Some 1%nat)
-  c13_addrow_assert_mutation c13_tsk_err_mutation_out_of_bounds (negb c13_md_offset_length_checked_mutation).
+  c13_addrow_assert_mutation c13_tsk_err_mutation_out_of_bounds (negb c13_md_offset_length_checked_mutation)
+  [None; None; Some TSK_UNKNOWN_TIME_BITS; Some TSK_NULL].
 Definition d_populations := mkDesc [] 1 c13_order_population None (Some 0%nat)
-  c13_addrow_assert_population c13_tsk_err_population_out_of_bounds (negb c13_md_offset_length_checked_population).
+  c13_addrow_assert_population c13_tsk_err_population_out_of_bounds (negb c13_md_offset_length_checked_population)
+  [].
 Definition d_provenances := mkDesc [] 2 c13_order_provenance None None
-  c13_addrow_assert_provenance c13_tsk_err_provenance_out_of_bounds false.
+  c13_addrow_assert_provenance c13_tsk_err_provenance_out_of_bounds false
+  [].
 
 (* tsk_*_table_init: one row / one cell allocated with increment 1, then the increments
    are reset to 0; the Python constructor then sets max_rows_increment *)
@@ -421,6 +433,29 @@ Definition set_columns_gen (bchk atomic : bool) (d : tdesc) (t : tbl) (cs : cols
       | e => (t, err_of e)
       end
   | e => (t, err_of e)
+  end.
+
+(* What Python passes may leave out optional fixed columns (population, individual of nodes;
+   parent, time of mutations).  tsk_*_table_append_columns then fills the NEW rows only:
+   memset(self->X + self->num_rows, 0xff, num_rows * sizeof(tsk_id_t)) / a loop storing
+   TSK_UNKNOWN_TIME at self->time[self->num_rows + j].  The same effect is obtained by
+   supplying the column [repeat default num_rows]; num_rows is the length of the first
+   (always required) fixed column.  A required column that is missing is a TypeError. *)
+Definition pcols : Type := (list (option (list Z)) * list (option (list Z * list Z)))%type.
+
+Fixpoint fill_fixed (n : nat) (defaults : list (option Z)) (pf : list (option (list Z))) : option (list (list Z)) :=
+  match defaults, pf with
+  | [], [] => Some []
+  | _ :: ds, Some c :: rest => match fill_fixed n ds rest with Some l => Some (c :: l) | None => None end
+  | Some v :: ds, None :: rest => match fill_fixed n ds rest with Some l => Some (repeat v n :: l) | None => None end
+  | _, _ => None
+  end.
+
+Definition fill_cols (d : tdesc) (pc : pcols) : option cols :=
+  let n := match fst pc with Some c :: _ => length c | _ => 0%nat end in
+  match fill_fixed n (td_fdefault d) (fst pc) with
+  | Some f => Some (f, snd pc)
+  | None => None
   end.
 
 (* which variant the code has is regenerated from tables.c / tskit_lwt_interface.h *)
@@ -750,7 +785,7 @@ Definition py_getitem_idx := py_getitem_idx_gen c13_getitem_schema_guarded.
 (* the pinned (pre-fix) variant of a descriptor whose binding let metadata_offset set
    num_rows (finding F15) *)
 Definition with_mdlen_bug (d : tdesc) (b : bool) : tdesc :=
-  mkDesc (td_kinds d) (td_nr d) (td_order d) (td_selfref d) (td_md d) (td_assert d) (td_oob d) b.
+  mkDesc (td_kinds d) (td_nr d) (td_order d) (td_selfref d) (td_md d) (td_assert d) (td_oob d) b (td_fdefault d).
 
 Definition py_setitem (d : tdesc) (t : tbl) (i : Z) (r : row) : step :=
   match py_index (nrows t) i with
